@@ -293,6 +293,9 @@ def run_case(case, ctx):  # noqa: C901
             ctx.evaluations += 1
             if n > 1:
                 ctx.digests.add(digest([sdig, n]))
+                if len(ctx.samples) < 3 and n in (2, N // 2, N):
+                    ctx.samples.append({"scenario": {k: v for k, v in case.items() if k != "only_n"},
+                                        "killed_before_event": n, "events_in_uninterrupted_run": N})
             v1, ntemps, nmis = audit_after_kill(case, run, n)
             counters["temp_leftovers"] += ntemps
             counters["mismatching_unprotected_after_kill"] += nmis
